@@ -99,7 +99,7 @@ def run(prop, tier, seed):
 
     # ------------------------------------------------------------ 3. conformance
     # C06 thorough probes a crash image at every byte of every append (and 12 bit flips each): fewer histories
-    ntr, ln = (60, 30) if tier == "quick" else ((100, 40) if prop == "C06" else (600, 45))
+    ntr, ln = (60, 30) if tier == "quick" else ((30, 40) if prop == "C06" else (600, 45))
     tp = os.path.join(wd, "trace.ndjson")
     args = ["wal", "--seed", seed + (0 if prop == "C05" else 500), "--traces", ntr, "--len", ln, "--out", tp,
             "--dir", os.path.join(wd, "db"), "--profile", prop]
